@@ -175,7 +175,7 @@ surv0_ctx_recv(void *arg, nni_aio *aio)
 	}
 
 	timeout = nni_aio_get_timeout(aio);
-	if ((timeout < 1) || ((now + timeout) > ctx->expire)) {
+	if ((timeout < 0) || ((now + timeout) > ctx->expire)) {
 		// limit the timeout to the survey time
 		nni_aio_set_expire(aio, ctx->expire);
 	}
